@@ -413,7 +413,7 @@ int main(int argc, char **argv)
     port = ntohs(sa.sin_port);
 
     xmpp_initialize();
-    ctx = xmpp_ctx_new(NULL, NULL);
+    ctx = xmpp_ctx_new(NULL, getenv("C08_DEBUG") ? xmpp_get_default_logger(XMPP_LEVEL_DEBUG) : NULL);
 
     while ((line = vh_getline())) {
         char kind_s[32] = "", mode_s[32] = "", entry_s[32] = "", ca_s[32] = "";
